@@ -46,7 +46,9 @@ pub struct TestRng {
 
 /// error codes a caller's generator may plausibly report: custom range, the internal range used by
 /// getrandom (UNSUPPORTED = 0x8000_0000, ...), and a raw OS errno
-pub const ERR_CODES: [u32; 5] = [rand_core::Error::CUSTOM_START + 7, 0x8000_0000, 0x8000_0001, 0x8000_000B, 5];
+/// 0 stands for an error WITHOUT a code: `rand_core::Error::new(..)`, the boxed representation that exists
+/// whenever rand_core's `std` feature is on somewhere in the build (`Error::code()` returns None for it)
+pub const ERR_CODES: [u32; 6] = [rand_core::Error::CUSTOM_START + 7, 0x8000_0000, 0x8000_0001, 0x8000_000B, 5, 0];
 
 impl TestRng {
     pub fn replay(data: &[u8]) -> TestRng {
@@ -55,7 +57,12 @@ impl TestRng {
     pub fn with_faults(data: &[u8], faults: Vec<Fault>, infallible_panics: bool) -> TestRng {
         TestRng { data: data.to_vec(), pos: 0, faults, log: vec![], delivered: 0, infallible_panics, err_code: ERR_CODES[0] }
     }
-    fn err(&self) -> rand_core::Error { rand_core::Error::from(NonZeroU32::new(self.err_code).expect("nonzero")) }
+    fn err(&self) -> rand_core::Error {
+        match NonZeroU32::new(self.err_code) {
+            Some(c) => rand_core::Error::from(c),
+            None => rand_core::Error::new("scripted RNG failure (boxed error without a code)"),
+        }
+    }
     fn take(&mut self, out: &mut [u8]) -> bool {
         if self.pos + out.len() > self.data.len() {
             return false;
@@ -129,6 +136,9 @@ pub trait PkObj: Send + Sync {
     fn internal_verify(&self, m: &[u8], sig: &[u8], ctx: &[u8]) -> bool;
     fn to_bytes(&self) -> Vec<u8>;
     fn clone_box(&self) -> Box<dyn PkObj>;
+    fn as_any(&self) -> &dyn std::any::Any;
+    /// `Clone::clone_from`: overwrite this object with a copy of `src` (same parameter set)
+    fn assign_from(&mut self, src: &dyn PkObj);
 }
 
 pub trait SkObj: Send + Sync {
@@ -138,6 +148,9 @@ pub trait SkObj: Send + Sync {
     fn public_key(&self) -> Box<dyn PkObj>;
     fn to_bytes(&self) -> Vec<u8>;
     fn clone_box(&self) -> Box<dyn SkObj>;
+    fn as_any(&self) -> &dyn std::any::Any;
+    /// `Clone::clone_from`: overwrite this object with a copy of `src` (same parameter set)
+    fn assign_from(&mut self, src: &dyn SkObj);
 }
 
 #[derive(Clone, Debug, serde::Serialize)]
@@ -176,7 +189,8 @@ pub trait Lib: Send + Sync {
 
     /// C16: build a key of the given kind/provenance from `xi`, drop it in place, observe its storage.
     /// `misalign`: place the object at an address that is a multiple of its alignment but not of twice its alignment.
-    fn drop_probe(&self, private: bool, prov: Provenance, xi: &[u8; 32], structured: Option<&[u8]>, misalign: bool) -> Option<DropProbe>;
+    /// `boxed`: the object is owned by a `Box` that is dropped (observed by the allocator hook) instead.
+    fn drop_probe(&self, private: bool, prov: Provenance, xi: &[u8; 32], structured: Option<&[u8]>, misalign: bool, boxed: bool) -> Option<DropProbe>;
 
     // ---- hooks (parameter-set generic kernels) ----
     fn hk_sig_decode(&self, sig: &[u8]) -> LibResult<(Vec<u8>, Vec<P32>, Vec<P32>)>;
@@ -220,6 +234,97 @@ fn arr<const N: usize>(b: &[u8]) -> [u8; N] {
 fn polys<const N: usize>(v: &[P32]) -> [P32; N] {
     assert_eq!(v.len(), N, "harness: wrong number of polynomials");
     core::array::from_fn(|i| v[i])
+}
+
+// ---------------------------------------------------------------------------------------------
+// Allocator hook: what a heap block holds at the moment it is handed back to the allocator. A wipe made of
+// plain stores to memory that is about to be freed is dead code for the optimiser; reading a buffer after
+// drop_in_place keeps such stores alive and cannot see the difference, the allocator can.
+
+pub struct WatchAlloc;
+
+const CAP_LEN: usize = 65_536;
+
+thread_local! {
+    static WATCH: core::cell::Cell<(usize, usize)> = const { core::cell::Cell::new((0, 0)) };
+    static CAPTURED: core::cell::Cell<bool> = const { core::cell::Cell::new(false) };
+    static CAP: core::cell::RefCell<Vec<u8>> = const { core::cell::RefCell::new(Vec::new()) };
+}
+
+unsafe impl std::alloc::GlobalAlloc for WatchAlloc {
+    unsafe fn alloc(&self, layout: std::alloc::Layout) -> *mut u8 { unsafe { std::alloc::System.alloc(layout) } }
+    unsafe fn alloc_zeroed(&self, layout: std::alloc::Layout) -> *mut u8 { unsafe { std::alloc::System.alloc_zeroed(layout) } }
+    unsafe fn realloc(&self, ptr: *mut u8, layout: std::alloc::Layout, new_size: usize) -> *mut u8 { unsafe { std::alloc::System.realloc(ptr, layout, new_size) } }
+    unsafe fn dealloc(&self, ptr: *mut u8, layout: std::alloc::Layout) {
+        // (try_with: thread-locals may already be gone while a thread shuts down)
+        let _ = WATCH.try_with(|w| {
+            let (addr, size) = w.get();
+            if addr != 0 && addr == ptr as usize {
+                let _ = CAP.try_with(|c| {
+                    if let Ok(mut buf) = c.try_borrow_mut() {
+                        let n = size.min(layout.size()).min(buf.len());
+                        for i in 0..n {
+                            buf[i] = unsafe { core::ptr::read_volatile(ptr.add(i)) };
+                        }
+                        let _ = CAPTURED.try_with(|f| f.set(true));
+                    }
+                });
+                w.set((0, 0));
+            }
+        });
+        unsafe { std::alloc::System.dealloc(ptr, layout) }
+    }
+}
+
+/// The key lives in a `Box`; the box is dropped; the allocator hook reports what the block held when it was freed.
+fn observe_boxed<T>(key: T) -> Option<DropProbe> {
+    let size = core::mem::size_of::<T>();
+    if size > CAP_LEN {
+        return None;
+    }
+    CAP.with(|c| {
+        let mut b = c.borrow_mut();
+        if b.len() < CAP_LEN {
+            b.resize(CAP_LEN, 0xEE);
+        }
+        b[..size].iter_mut().for_each(|x| *x = 0xEE);
+    });
+    CAPTURED.with(|f| f.set(false));
+    let boxed = Box::new(key);
+    let addr = &*boxed as *const T as usize;
+    let before: Vec<u8> = (0..size).map(|i| unsafe { core::ptr::read_volatile((addr + i) as *const u8) }).collect();
+    WATCH.with(|w| w.set((addr, size)));
+    // a second allocation keeps the block away from the top of the heap (it is not merged into the top chunk and
+    // trimmed when freed)
+    let guard = std::hint::black_box(Box::new([0x5Au8; 96]));
+    // (allocated before the drop: nothing may be allocated between the drop and the read-back)
+    let mut freed: Vec<u8> = vec![0u8; size];
+    drop(boxed);
+    WATCH.with(|w| w.set((0, 0)));
+    // (a) what the allocator saw; (b) what the freed block holds right after the drop, read behind the compiler's
+    // back through an integer address (the way a memory-disclosure bug or a core dump would see it). The first
+    // 32 bytes of a freed block belong to the allocator's free-list links and are not judged in (b).
+    for (i, f) in freed.iter_mut().enumerate().skip(32) {
+        *f = unsafe { core::ptr::read_volatile((std::hint::black_box(addr) + i) as *const u8) };
+    }
+    drop(guard);
+    let hooked = cfg!(feature = "allochook");
+    if hooked && !CAPTURED.with(core::cell::Cell::get) {
+        return None;
+    }
+    let mut after: Vec<u8> = if hooked { CAP.with(|c| c.borrow()[..size].to_vec()) } else { vec![0u8; size] };
+    for (a, f) in after.iter_mut().zip(&freed) {
+        *a |= *f;
+    }
+    let blocks = size.div_ceil(256);
+    Some(DropProbe {
+        size,
+        nonzero_before: before.iter().filter(|&&b| b != 0).count(),
+        nonzero_after: after.iter().filter(|&&b| b != 0).count(),
+        first_survivor: after.iter().position(|&b| b != 0),
+        blocks_nonzero_before: before.chunks(256).filter(|c| c.iter().any(|&b| b != 0)).count(),
+        blocks,
+    })
 }
 
 /// Move `key` into storage owned by the harness at a chosen alignment, drop it in place, read the storage.
@@ -278,6 +383,11 @@ macro_rules! lib_impl {
                 }
                 fn to_bytes(&self) -> Vec<u8> { self.0.clone().into_bytes().to_vec() }
                 fn clone_box(&self) -> Box<dyn PkObj> { Box::new(Pk(self.0.clone())) }
+                fn as_any(&self) -> &dyn std::any::Any { self }
+                fn assign_from(&mut self, src: &dyn PkObj) {
+                    let s = src.as_any().downcast_ref::<Pk>().expect("harness: assign_from across parameter sets");
+                    self.0.clone_from(&s.0);
+                }
             }
 
             impl SkObj for Sk {
@@ -300,6 +410,11 @@ macro_rules! lib_impl {
                 fn public_key(&self) -> Box<dyn PkObj> { Box::new(Pk(self.0.get_public_key())) }
                 fn to_bytes(&self) -> Vec<u8> { self.0.clone().into_bytes().to_vec() }
                 fn clone_box(&self) -> Box<dyn SkObj> { Box::new(Sk(self.0.clone())) }
+                fn as_any(&self) -> &dyn std::any::Any { self }
+                fn assign_from(&mut self, src: &dyn SkObj) {
+                    let s = src.as_any().downcast_ref::<Sk>().expect("harness: assign_from across parameter sets");
+                    self.0.clone_from(&s.0);
+                }
             }
         }
 
@@ -335,7 +450,7 @@ macro_rules! lib_impl {
                 $m::dudect_keygen_sign_with_rng(rng, m).map(|s| s.to_vec())
             }
 
-            fn drop_probe(&self, private: bool, prov: Provenance, xi: &[u8; 32], structured: Option<&[u8]>, misalign: bool) -> Option<DropProbe> {
+            fn drop_probe(&self, private: bool, prov: Provenance, xi: &[u8; 32], structured: Option<&[u8]>, misalign: bool, boxed: bool) -> Option<DropProbe> {
                 let (pk, sk) = $m::KG::keygen_from_seed(xi);
                 if private {
                     let key: $m::PrivateKey = match (prov, structured) {
@@ -345,7 +460,7 @@ macro_rules! lib_impl {
                         (Provenance::Cloned, _) => sk.clone(),
                         (Provenance::Derived, _) => return None,
                     };
-                    Some(observe(key, misalign))
+                    if boxed { observe_boxed(key) } else { Some(observe(key, misalign)) }
                 } else {
                     let key: $m::PublicKey = match (prov, structured) {
                         (Provenance::Deserialised, Some(b)) => $m::PublicKey::try_from_bytes(arr(b)).ok()?,
@@ -354,7 +469,7 @@ macro_rules! lib_impl {
                         (Provenance::Cloned, _) => pk.clone(),
                         (Provenance::Derived, _) => sk.get_public_key(),
                     };
-                    Some(observe(key, misalign))
+                    if boxed { observe_boxed(key) } else { Some(observe(key, misalign)) }
                 }
             }
 
